@@ -12,6 +12,7 @@ def oracle(case, outs):
     prev = None
     captured = {}      # tx -> number of commit_heads events at capture
     delivered = {}     # tx -> ids offered since open
+    accepted = {}      # tx -> ids whose rule ran at origin and did not fail (from the audit policy's log)
     events = 0         # number of commit_heads executed so far (successful commits and actions)
     stats = {"commit_ok": 0, "commit_concurrent": 0, "commit_false": 0, "commit_other_err": 0, "action_ok": 0,
              "action_err": 0, "racing_pairs": 0}
@@ -27,10 +28,13 @@ def oracle(case, outs):
         if op[0] == "open":
             captured.pop(op[1], None)
             delivered[op[1]] = set()
+            accepted[op[1]] = set()
         elif op[0] == "add":
             t = op[1]
             if t in delivered:
                 delivered[t] |= set(op[2])
+                origin = [int(x.split("@")[0]) for x in o["rules"] if x.endswith("@O")]
+                accepted[t] |= set(origin[:-1] if o["res"].startswith("err:Policy") else origin)
                 if t not in captured and o["heads"] is not None and (existed or True) and o["res"] != "invalid":
                     # capture happens on the first add that finds (or creates) the graph
                     if existed or o["heads"] is not None:
@@ -51,6 +55,8 @@ def oracle(case, outs):
                     bad.append((j, "commit added commands this transaction never received: %s" % sorted((g - pg) - delivered.get(t, set()))[:5]))
                 if t not in captured or captured[t] != events:
                     bad.append((j, "commit succeeded although another commit/action happened since the heads were read"))
+                if not accepted.get(t, set()) <= g:
+                    bad.append((j, "commit succeeded but commands the transaction accepted are not committed: %s" % sorted(accepted[t] - g)[:5]))
                 if existed and not changed:
                     bad.append((j, "successful commit did not change the head-set stamp"))
                 events += 1
@@ -71,6 +77,7 @@ def oracle(case, outs):
                         bad.append((j, "stale transaction failed with %s instead of ConcurrentTransaction" % r))
             captured.pop(t, None)
             delivered.pop(t, None)
+            accepted.pop(t, None)
         elif op[0] == "action":
             if o["res"] == "ok":
                 stats["action_ok"] += 1
